@@ -65,8 +65,56 @@ def _documented_rejection(exc):
                                             or "overlap" in s.lower())
 
 
+def _pow_over(e, kinds, inside=False):
+    """True if the expression contains a pow / ** node whose base subtree contains a node of one of `kinds`."""
+    k = e[0]
+    if inside and k in kinds:
+        return True
+    kids = [x for x in e[1:] if isinstance(x, list) and x and isinstance(x[0], str) and x[0] in X._KINDS]
+    return any(_pow_over(x, kinds, inside or k in ("pow", "**")) for x in kids)
+
+
+def _all_params(op, depth=0):
+    out = []
+    for d in getattr(op, "data", ()):
+        try:
+            out += [float(np.real(v)) for v in np.ravel(np.asarray(d))]
+        except (TypeError, ValueError):
+            pass
+    if depth < 6:
+        for sub in ([op.base] if hasattr(op, "base") else []) + list(getattr(op, "operands", ())):
+            out += _all_params(sub, depth + 1)
+    return out
+
+
+def _fractional_base_outside(e):
+    """Failure-class test: the expression has a fractional power whose base, AFTER PennyLane's own simplify, carries a rotation angle
+    outside (-pi, pi) (e.g. adjoint(RX(0.3)) -> RX(4pi-0.3), S**-1 -> PhaseShift(3pi/2)); simplify then scales that angle by z, which
+    is a different branch of the root than the principal one qp.matrix uses."""
+    import pennylane as qp
+
+    k = e[0]
+    if k in ("pow", "**") and not isinstance(e[2], int):
+        try:
+            with qp.QueuingManager.stop_recording():
+                sb = qp.simplify(X.build(e[1]))
+            if any(abs(p) >= X.PI - 1e-6 for p in _all_params(sb)):
+                return True
+        except Exception:  # noqa: BLE001
+            pass
+    return any(_fractional_base_outside(x) for x in e[1:] if isinstance(x, list) and x and isinstance(x[0], str) and x[0] in X._KINDS)
+
+
+def _raise_class(stage, exc, e, sh):
+    msg = str(exc)
+    if isinstance(exc, TypeError) and ("'Exp' object is not iterable" in msg or "object of type 'Exp' has no len()" in msg) and _pow_over(e, ("exp",)):
+        return f"{stage}-raises:TypeError:pow-over-Exp"
+    return f"{stage}-raises:{type(exc).__name__}:{sh}"
+
+
 def check(e):
     import pennylane as qp
+    from pennylane.exceptions import MatrixUndefinedError, SparseMatrixUndefinedError
 
     sh = X.shape(e, 2)
     try:
@@ -78,38 +126,60 @@ def check(e):
     except ValueError as exc:
         if _documented_rejection(exc):
             return skip("rejected:control-or-work-wire-overlap")
-        raise
+        return bad(_raise_class("build", exc, e, sh), f"{type(exc).__name__}: {exc}"[:300], "an operator")
+    except Exception as exc:  # noqa: BLE001
+        return bad(_raise_class("build", exc, e, sh), f"{type(exc).__name__}: {exc}"[:300], "an operator")
     extra = [w for w in op.wires if w not in W]
     Wx = W + extra
     ref = RS.embed(M, W, Wx) if extra else M
-    tol = 1e-7 if X.has_kind(e, ("pow", "**")) and any(not isinstance(z, int) for z in _exponents(e)) else TOL
-    if set(op.wires) - set(Wx) or not set(op.wires) <= set(Wx):
+    tol = 1e-7 if any(not isinstance(z, int) for z in _exponents(e)) else TOL
+    if not set(op.wires) <= set(Wx):
         return bad(f"wires:{sh}", list(op.wires), Wx)
-    got = _dense(op, Wx)
+    try:
+        got = _dense(op, Wx)
+    except MatrixUndefinedError:
+        return skip("no-matrix(MatrixUndefinedError: no matrix, sparse matrix or decomposition)")
+    except SparseMatrixUndefinedError as exc:
+        return bad(f"matrix-raises:SparseMatrixUndefinedError:{type(op).__name__}-over-ChangeOpBasis" if X.has_kind(e, ("cob",)) else
+                   _raise_class("matrix", exc, e, sh), "SparseMatrixUndefinedError from qp.matrix(op) (has_sparse_matrix is %s)" % op.has_sparse_matrix,
+                   "a matrix or MatrixUndefinedError", op=repr(op)[:300])
     if not _close(got, ref, tol):
         return bad(f"matrix:{sh}", got, ref, op=repr(op)[:300], wire_order=Wx)
     # ---- simplify keeps the linear map
-    with qp.QueuingManager.stop_recording():
-        s = qp.simplify(op)
+    try:
+        with qp.QueuingManager.stop_recording():
+            s = qp.simplify(op)
+    except Exception as exc:  # noqa: BLE001
+        return bad(_raise_class("simplify", exc, e, sh), f"{type(exc).__name__}: {exc}"[:300], "a simplified operator", op=repr(op)[:300])
     if not set(s.wires) <= set(Wx):
         return bad(f"simplify-wires:{sh}", list(s.wires), Wx, simplified=repr(s)[:300])
-    gs = _dense(s, Wx)
-    if not _close(gs, ref, tol):
-        return bad(f"simplify-changes-map:{sh}", gs, ref, op=repr(op)[:300], simplified=repr(s)[:300], wire_order=Wx)
+    try:
+        gs = _dense(s, Wx)
+    except (MatrixUndefinedError, SparseMatrixUndefinedError):
+        gs = None
+    if gs is not None and not _close(gs, ref, tol):
+        if _fractional_base_outside(e):
+            sig = "simplify-changes-map:fractional-power-of-base-simplified-to-angle-outside(-pi,pi)"
+        else:
+            sig = f"simplify-changes-map:{sh}"
+        return bad(sig, gs, ref, op=repr(op)[:300], simplified=repr(s)[:300], wire_order=Wx)
     # ---- relabelling changes the map only by the relabelling
     for nm, sigma in RELABEL.items():
-        with qp.QueuingManager.stop_recording():
-            m = qp.map_wires(op, sigma)
+        try:
+            with qp.QueuingManager.stop_recording():
+                m = qp.map_wires(op, sigma)
+        except Exception as exc:  # noqa: BLE001
+            return bad(_raise_class("map_wires", exc, e, sh), f"{type(exc).__name__}: {exc}"[:300], "a relabelled operator", op=repr(op)[:300])
         want_w = [sigma.get(w, w) for w in op.wires]
-        if list(m.wires) != want_w:
-            if set(m.wires) != set(want_w):
-                return bad(f"map_wires-wires:{nm}:{sh}", list(m.wires), want_w)
+        if set(m.wires) != set(want_w):
+            return bad(f"map_wires-wires:{nm}:{sh}", list(m.wires), want_w)
         gm = _dense(m, [sigma.get(w, w) for w in Wx])
         if not _close(gm, ref, tol):
             return bad(f"map_wires-changes-map:{nm}:{sh}", gm, ref, op=repr(op)[:300], mapped=repr(m)[:300])
     tr = np.trace(ref)
     scalar = bool(np.allclose(ref, ref[0, 0] * np.eye(ref.shape[0])))
-    return ok(outcome=[type(op).__name__, type(s).__name__, len(Wx), round(float(tr.real), 5), round(float(tr.imag), 5)], nontrivial=not scalar)
+    return ok(outcome=[type(op).__name__, type(s).__name__, gs is not None, len(Wx), round(float(tr.real), 5), round(float(tr.imag), 5)],
+              nontrivial=not scalar)
 
 
 def _exponents(e):
